@@ -7,9 +7,9 @@ from props.c05 import rlit
 
 OBLIGATIONS = dict(
     prop_file='Properties/C19.v',
-    glue=['Glue/CoreGlue.v', 'Glue/Pin_p_gumbel.v'],
+    glue=['Glue/CoreGlue.v', 'Glue/Pin_p_gumbel.v'] + ['Glue/Pin_fp_C19.v'],
     extra=['Model/Gumbel.vo'],
-    gen_items=['g_gumbel_noise', 'p_gumbel', 'p_select'],
+    gen_items=['g_gumbel_noise', 'p_gumbel', 'p_select', 'fp_C19'],
 )
 ASSUMPTIONS = [
     'the probability space is definitional: torch.Tensor.uniform_ delivers independent uniforms per logit entry (one noise entry per position and code: the captured noise tensor has the shape of the logits) and P(j wins) is the race integral; no measure theory is developed',
